@@ -5,6 +5,7 @@ import (
 	"context"
 	"crypto/sha256"
 	"fmt"
+	"math"
 	"math/rand"
 	"strings"
 	"sync"
@@ -195,6 +196,16 @@ func TestC20(t *testing.T) {
 	c = base
 	c.CacheIK, c.CacheSK = true, false
 	cfgs = append(cfgs, namedCfg{"ik-cache-only", c})
+
+	// "keys never expire": the largest duration as the key lifetime (and one near the top of the range in which adding it
+	// to a Unix time still fits 64-bit nanoseconds)
+	c = base
+	c.Expire = time.Duration(math.MaxInt64)
+	cfgs = append(cfgs, namedCfg{"never-expire(max-duration)", c})
+	c = base
+	c.Expire = 280 * 365 * 24 * time.Hour
+	c.SharedIK, c.IKPolicy, c.IKCap = true, "lru", 64
+	cfgs = append(cfgs, namedCfg{"never-expire(280y)+shared-lru64", c})
 
 	nSeeds := ev.Pick(4, 120)
 	for _, nc := range cfgs {
